@@ -8,6 +8,7 @@ import (
 	"fmt"
 	"math/rand/v2"
 	"path/filepath"
+	"sort"
 	"strings"
 	"testing"
 	"time"
@@ -28,6 +29,31 @@ func c16Describe(ms []c16Msg) []string {
 	out := make([]string, len(ms))
 	for i, m := range ms {
 		out[i] = vk.DescribeClientMsg(m.msg)
+	}
+	return out
+}
+
+// c16Canon renders a reply stream with runs of EVENT replies that share subscription id
+// and created_at sorted by id: the order inside such a run is not fixed by any statement.
+func c16Canon(rs []mocrelay.ServerMsg) []string {
+	out := c16DescribeReplies(rs)
+	i := 0
+	for i < len(rs) {
+		e, is := rs[i].(*mocrelay.ServerEventMsg)
+		if !is {
+			i++
+			continue
+		}
+		j := i + 1
+		for j < len(rs) {
+			f, is2 := rs[j].(*mocrelay.ServerEventMsg)
+			if !is2 || f.SubscriptionID != e.SubscriptionID || f.Event.CreatedAt != e.Event.CreatedAt {
+				break
+			}
+			j++
+		}
+		sort.Strings(out[i:j])
+		i = j
 	}
 	return out
 }
@@ -297,7 +323,7 @@ func TestVerif_C16(t *testing.T) {
 				rep.Violation("restore/panel-stalled", "query panel not answered", wit())
 				return
 			}
-			d1, d2 := c16DescribeReplies(r1), c16DescribeReplies(r2)
+			d1, d2 := c16Canon(r1), c16Canon(r2)
 			if strings.Join(d1, "\n") != strings.Join(d2, "\n") {
 				at := 0
 				for at < len(d1) && at < len(d2) && d1[at] == d2[at] {
@@ -308,11 +334,15 @@ func TestVerif_C16(t *testing.T) {
 				return
 			}
 			// full events must be equal too (content, tags, sig)
+			byID := map[string]*mocrelay.Event{}
 			for k := range r1 {
-				e1, is1 := r1[k].(*mocrelay.ServerEventMsg)
-				e2, is2 := r2[k].(*mocrelay.ServerEventMsg)
-				if is1 && is2 && !vk.EventsEqual(e1.Event, e2.Event) {
-					rep.Violation("restore/event-altered", "an event differs after dump/restore", map[string]any{"original": e1.Event, "restored": e2.Event})
+				if e1, is1 := r1[k].(*mocrelay.ServerEventMsg); is1 {
+					byID[e1.Event.ID] = e1.Event
+				}
+			}
+			for k := range r2 {
+				if e2, is2 := r2[k].(*mocrelay.ServerEventMsg); is2 && !vk.EventsEqual(byID[e2.Event.ID], e2.Event) {
+					rep.Violation("restore/event-altered", "an event differs after dump/restore", map[string]any{"original": byID[e2.Event.ID], "restored": e2.Event})
 					return
 				}
 			}
@@ -323,8 +353,12 @@ func TestVerif_C16(t *testing.T) {
 				rep.Violation("restore/second-dump-differs", "the dump of the restored cache does not decode to the same list", map[string]any{"first": string(dump1), "second": buf2.String()})
 				return
 			}
-			for k := range l1 {
-				if !vk.EventsEqual(l1[k], l2[k]) {
+			m1 := map[string]*mocrelay.Event{}
+			for _, e := range l1 {
+				m1[e.ID] = e
+			}
+			for k := range l2 {
+				if !vk.EventsEqual(m1[l2[k].ID], l2[k]) {
 					rep.Violation("restore/second-dump-differs", "the dump of the restored cache lists different events", map[string]any{"first": string(dump1), "second": buf2.String()})
 					return
 				}
@@ -562,7 +596,7 @@ func TestVerif_C16(t *testing.T) {
 			rep.Violation("restore/panel-stalled", "query panel not answered", nil)
 			return
 		}
-		d1, d2 := c16DescribeReplies(r1), c16DescribeReplies(r2)
+		d1, d2 := c16Canon(r1), c16Canon(r2)
 		if strings.Join(d1, "\n") != strings.Join(d2, "\n") {
 			n1, n2 := 0, 0
 			for _, x := range d1 {
